@@ -1171,6 +1171,9 @@ func main() {
 	r.Cases("syncring-honest", nh, ev.Opt{MaxCaseSeconds: 3000, NoRerun: true, AlwaysLog: true}, honestCase)
 	// the same sequential workloads once under -race (checkptr on the reflection seek)
 	r.CasesProc("syncring-wrap/checkptr", r.N(500, 5000), ev.Opt{Bin: "race", Procs: 4}, wrapCase)
+	// private rings on parallel workers of a -race child: state shared between rings
+	r.CasesProc("ring/race-parallel", r.N(800, 20000), ev.Opt{Bin: "race", Procs: 2, Workers: 8, AlwaysLog: true, HangViolation: true, MaxCaseSeconds: 120}, ringCase)
+	r.CasesProc("syncring/race-parallel", r.N(800, 20000), ev.Opt{Bin: "race", Procs: 2, Workers: 8, AlwaysLog: true, HangViolation: true, MaxCaseSeconds: 120}, syncCase)
 	r.Require("grid_points", int64(len(grid)))
 	r.Require("ring_recaps_ok", 1000)
 	r.Require("ring_expands", 1000)
